@@ -216,3 +216,26 @@ def mutate_goal(rng, g, type_names):
     if r < 0.85:
         return "not { %s }" % g if "exists<" not in g else g
     return g
+
+
+def guidance_repeats(ans):
+    """Python mirror of Contract.guidance_repeats on a harness answer: the Ambig(Definite)
+    substitution mentions some answer-bound variable twice."""
+    if sx.head(ans) != "AmbigDefinite":
+        return False
+    seen, dup = set(), [False]
+
+    def walk(t):
+        h = sx.head(t)
+        if h == "BV":
+            if t[1] in seen:
+                dup[0] = True
+            seen.add(t[1])
+        elif h == "App":
+            for a in t[2]:
+                walk(a)
+        elif h == "Lt":
+            walk(t[1])
+    for t in ans[2]:
+        walk(t)
+    return dup[0]
